@@ -2077,10 +2077,10 @@ def _substitute_values_check_errors(command: T.Sequence[object], values: T.Dict[
         for each in command:
             if not isinstance(each, str):
                 continue
-            match2 = re.search(inregex[0], each)
-            if match2 and match2.group() not in values:
-                m = 'Command cannot have {!r} since there are only {!r} inputs'
-                raise MesonException(m.format(match2.group(), len(values['@INPUT@'])))
+            for match2 in re.finditer(inregex[0], each):
+                if match2.group() not in values:
+                    m = 'Command cannot have {!r} since there are only {!r} inputs'
+                    raise MesonException(m.format(match2.group(), len(values['@INPUT@'])))
     if '@OUTPUT@' not in values:
         # Error out if any output-derived templates are present in the command
         match = iter_regexin_iter(outregex, command)
@@ -2091,10 +2091,10 @@ def _substitute_values_check_errors(command: T.Sequence[object], values: T.Dict[
         for each in command:
             if not isinstance(each, str):
                 continue
-            match2 = re.search(outregex[0], each)
-            if match2 and match2.group() not in values:
-                m = 'Command cannot have {!r} since there are only {!r} outputs'
-                raise MesonException(m.format(match2.group(), len(values['@OUTPUT@'])))
+            for match2 in re.finditer(outregex[0], each):
+                if match2.group() not in values:
+                    m = 'Command cannot have {!r} since there are only {!r} outputs'
+                    raise MesonException(m.format(match2.group(), len(values['@OUTPUT@'])))
 
 
 def substitute_values(command: T.List[_T],
